@@ -39,12 +39,23 @@ Definition tol_p (e : Q) : Q := (1 # 10000000000) + (1 # 1000000000) * Qabs e.  
 Definition tol_phi : Q := 1 # 1000000000.                                           (* abs 1e-9 (C03) *)
 
 (* tag bits: 1 exact untied, 2 exact tied, 4 normal approximation, 8 legacy two-sided value differs
-   from the specified one, 16 ErrSamplesEqual; 0 = ErrSampleSize (trivial) *)
-Definition res_tag (ties : bool) (r : mwres) : Z :=
+   from the specified one, 16 ErrSamplesEqual, 32 exact branch with a TIED PALINDROMIC tie vector
+   (T = rev T: by C01_two_sided_symmetric bit 8 cannot occur together with bit 32 for the same call);
+   0 = ErrSampleSize (trivial) *)
+Fixpoint nat_list_eqb (a b : list nat) : bool :=
+  match a, b with
+  | [], [] => true
+  | x :: a', y :: b' => Nat.eqb x y && nat_list_eqb a' b'
+  | _, _ => false
+  end.
+Definition palin (T : list nat) : bool := nat_list_eqb (rev T) T.
+Definition res_tag (s : mwstat) (r : mwres) : Z :=
+  let ties := ms_ties s in
   match r with
   | MWErrSize => 0%Z
   | MWErrEqual => 16%Z
-  | MWExact _ _ _ p ps => ((if ties then 2 else 1) + (if Qeq_bool p ps then 0 else 8))%Z
+  | MWExact _ _ _ p ps => ((if ties then 2 else 1) + (if Qeq_bool p ps then 0 else 8)
+                           + (if ties && palin (ms_T s) then 32 else 0))%Z
   | MWApprox _ _ _ _ _ => 4%Z
   end.
 
@@ -88,7 +99,7 @@ Fixpoint cmp_calls (run : mwrun) (empty : bool) (s : mwstat) (cdf : nat -> nat -
   | c :: rest =>
       let r := mw_test_s cdf (r_EL run) (r_TL run) empty s (c_alt c) in
       let '(cd, w, e) := cmp_call r c in
-      let tag' := Z.lor tag (res_tag (ms_ties s) r) in
+      let tag' := Z.lor tag (res_tag s r) in
       if (cd =? V_MISMATCH)%Z then (V_MISMATCH, tag', Some (i, w, e))
       else cmp_calls run empty s cdf rest (i + 1)%Z (Z.max code cd) tag'
   end.
